@@ -17,6 +17,7 @@ from typing import Any
 from vf import hx, stubs, symdb
 
 stubs.install()
+hx.quiet_format()
 
 import vf.native  # noqa: E402,F401  (direct task executor stub + workload builders; its sqlite shim is replaced below)
 from stabilize.persistence import connection as _connmod  # noqa: E402
